@@ -142,6 +142,23 @@ def w_grid(case):
     if not tol.close(got2, got):
         viol.append({'sub': 'repeat', 'message': 'second evaluation differs',
                      'expected': got, 'observed': got2})
+    # the caller moves entries of ONE array object in place between evaluations
+    x_obj = params.copy()
+    ll(x_obj)
+    for k_ in sorted(set([0, len(params) - 1, case['n_mech']])):
+        if k_ >= len(params):
+            continue
+        x_obj[k_] *= 1.01
+        e_m = float(np.real(reference(case, x_obj.copy())[0]))
+        g_m = [ll(x_obj), float(np.sum(ll.compute_pointwise_ll(x_obj))),
+               ll.evaluateS1(x_obj)[0]]
+        ntr += 3
+        if not all(tol.close(g, e_m) for g in g_m):
+            viol.append({'sub': 'inplace', 'message': 'after entry %d of the SAME '
+                         'parameter array was changed in place the evaluations are '
+                         'not the reference sum at the new vector' % k_,
+                         'expected': e_m, 'observed': g_m, 'behaviour': 'inplace'})
+            break
     # every ordered pair of the three evaluation entry points on the same object
     for k, ep in enumerate(SEQUENCE):
         if ep == 'c':
